@@ -1,5 +1,6 @@
 """Self-test of the reference UPDATE codec (vf/ref/upd.py) and the pools (vf/ref/pools.py).
-    /venv/bin/python /verif/vf/ref/selftest_upd.py [--tier quick|thorough]
+    /venv/bin/python /verif/vf/ref/selftest_upd.py [--tier quick|thorough] [--sample N]
+(--sample N round-trips every N-th pool case only; the default 1 takes about a minute on quick)
 (a) the encoder against the (value, bytes) pairs of yabgp's unit tests, copied here as literals
     (this file imports nothing from yabgp); (b) encode -> decode_update == expected on every case of
 the quick pools, plus the legal-variant switches; (c) exit status 1 on any mismatch."""
@@ -361,6 +362,12 @@ def rfc_points():
     check('/9 v6 below 2^32 text', upd._canon_prefix('::/9', 6), '::/9')
     check('trailing bits', upd.encode_prefix4('10.128.0.0/9', True), b'\x09\x0a\xff')
     check('host bits dropped', upd.encode_prefix4('10.255.255.255/9'), b'\x09\x0a\x80')
+    tb = {'withdraw': ['10.128.0.0/9'], 'attr': {14: {'afi_safi': (1, 4), 'nexthop': '1.1.1.1',
+                                                     'nlri': [{'prefix': '10.128.0.0/9', 'label': [1]}]}}}
+    check('trailing bits, plain lists only', upd.encode_body(tb, False, False, {'trailing_bits': 'ipv4-unicast'}).hex(),
+          '0003090aff0012800e0f000104040101010100210000110a80')
+    check('trailing bits, all v4', upd.encode_body(tb, False, False, {'trailing_bits': 'v4'}).hex(),
+          '0003090aff0012800e0f000104040101010100210000110aff')
     for plen in range(129):
         check('v6 octet count %d' % plen, len(upd.encode_prefix6('::/%d' % plen)), 1 + (plen + 7) // 8)
     for plen in range(33):
@@ -471,7 +478,7 @@ def all_codes(msg):
     return sorted(msg.get('attr') or {})
 
 
-def pool_roundtrips(tier):
+def pool_roundtrips(tier, sample=1):
     n = 0
     fams = {}
     t0 = time.time()
@@ -479,6 +486,8 @@ def pool_roundtrips(tier):
         prev_key = None
         for fam, cv, msg, asn4 in gen(tier):
             n += 1
+            if n % sample:
+                continue
             fams[fam.split(':')[0]] = fams.get(fam.split(':')[0], 0) + 1
             name = '%s %s %r' % (fam, '|'.join(cv), asn4)
             if not isinstance(cv, tuple) or not all(isinstance(c, str) for c in cv) or not isinstance(fam, str):
@@ -553,9 +562,11 @@ def determinism():
 
 
 def main():
-    tier = 'quick'
+    tier, sample = 'quick', 1
     if '--tier' in sys.argv:
         tier = sys.argv[sys.argv.index('--tier') + 1]
+    if '--sample' in sys.argv:
+        sample = max(1, int(sys.argv[sys.argv.index('--sample') + 1]))
     vectors_attributes()
     vectors_nlri()
     vectors_mp()
@@ -564,7 +575,7 @@ def main():
     rfc_points()
     element_pool_checks()
     determinism()
-    n = pool_roundtrips(tier)
+    n = pool_roundtrips(tier, sample)
     if tier == 'quick':
         check('quick tier size within 100-150 k', 100000 <= n <= 150000, True)
     if FAILS:
